@@ -17,7 +17,7 @@ def main():
     assert os.path.realpath(impl.treepath.__file__).startswith(os.path.realpath(os.environ.get("VERIF_REPO_SRC", "/repo/src"))), \
         impl.treepath.__file__
     runners = {'q': impl.run_qcase, 'm': impl.run_mcase}
-    for name in ('run_bcase', 'run_lcase', 'run_dcase', 'run_ccase', 'run_pcase'):
+    for name in ('run_bcase', 'run_lcase', 'run_dcase', 'run_ccase', 'run_pcase', 'run_fcase'):
         if hasattr(impl, name):
             runners[name[4]] = getattr(impl, name)
     cases = json.load(open(src))
